@@ -2,4 +2,4 @@ From Coq Require Extraction.
 From Coq Require Import ExtrOcamlBasic.
 From RM Require Import C05.Model C05.Driver C04.Model C04.Driver.
 Extraction "c04_model.ml" run_case frame_module trust_code f_instr f_resume f_trust f_regs f_valid r_ip r_sp r_fp r_lr r_gp
-  s_func_lo parse_symfile layout_scan layout_scan_wf layout_mix layout_mix_wf.
+  s_func_lo parse_symfile layout_scan layout_scan_wf layout_mix layout_mix_wf layout_mix_rules_ok layout_mix_rules_walk.
